@@ -84,6 +84,38 @@ def c19_side_condition(req, tick, accepted, is_buy):
     return ""
 
 
+def snap_market(m, U):
+    """Projection of the observable state of a Market (public getters, priority_queue, best orders)."""
+    u = U.u
+    book = sorted([[o.order_id, o.volume] for o in m.buy_order_book.priority_queue + m.sell_order_book.priority_queue])
+    bb, bs = m.buy_order_book.get_best_order(), m.sell_order_book.get_best_order()
+    vw = m.get_vwap()
+    num, den = sum(m.get_executed_total_prices()), sum(m.get_executed_volumes())
+    vw_ok = (math.isnan(vw) if den == 0 else vw == num / den)
+    row = [u(m.get_market_price()), u(m.get_last_executed_price()), u(m.get_mid_price()),
+           int(m.get_executed_volume()), u(m.get_executed_total_price()),
+           int(m.get_n_buy_order()), int(m.get_n_sell_order())]
+    return {
+        "book": book,
+        "bB": -1 if bb is None else bb.order_id, "bS": -1 if bs is None else bs.order_id,
+        "pB": u(m.get_best_buy_price()), "pS": u(m.get_best_sell_price()),
+        "dB": [[u(p), int(v)] for p, v in m.get_buy_order_book().items()],
+        "dS": [[u(p), int(v)] for p, v in m.get_sell_order_book().items()],
+        "row": row, "clock": m.get_time(), "run": bool(m.is_running), "vw": bool(vw_ok),
+    }
+
+
+def history_rows(m, intern):
+    """Interned rows of all eight series for every PAST time (C06: what was seen once must be seen forever)."""
+    t = m.get_time()
+    cols = [getattr(m, g)(range(t)) for g in SERIES_FOR_HISTORY]
+    out = []
+    for i in range(t):
+        row = tuple(repr(c[i]) for c in cols)
+        out.append(intern.setdefault(row, len(intern) + 1))
+    return out
+
+
 class Broken(Exception):
     """The code under test raised where no valid operation may raise; the history ends with a crash event."""
 
@@ -114,27 +146,8 @@ class BookSession:
         return {"den": self.den, "p0": self.p0, "fund0": self.fund0, "exact": self.exact, "tick": self.tick_size,
                 "ev": self.ev, "ops": self.ops}
 
-    def _row(self):
-        m, u = self.m, self.U.u
-        return [u(m.get_market_price()), u(m.get_last_executed_price()), u(m.get_mid_price()),
-                int(m.get_executed_volume()), u(m.get_executed_total_price()),
-                int(m.get_n_buy_order()), int(m.get_n_sell_order())]
-
     def _snap(self):
-        m, u = self.m, self.U.u
-        book = sorted([[o.order_id, o.volume] for o in m.buy_order_book.priority_queue + m.sell_order_book.priority_queue])
-        bb, bs = m.buy_order_book.get_best_order(), m.sell_order_book.get_best_order()
-        vw = m.get_vwap()
-        num, den = sum(m.get_executed_total_prices()), sum(m.get_executed_volumes())
-        vw_ok = (math.isnan(vw) if den == 0 else vw == num / den)
-        return {
-            "book": book,
-            "bB": -1 if bb is None else bb.order_id, "bS": -1 if bs is None else bs.order_id,
-            "pB": u(m.get_best_buy_price()), "pS": u(m.get_best_sell_price()),
-            "dB": [[u(p), int(v)] for p, v in m.get_buy_order_book().items()],
-            "dS": [[u(p), int(v)] for p, v in m.get_sell_order_book().items()],
-            "row": self._row(), "clock": m.get_time(), "run": bool(m.is_running), "vw": bool(vw_ok),
-        }
+        return snap_market(self.m, self.U)
 
     def _emit(self, e):
         cnt, exp = self.logger.take()
@@ -226,14 +239,7 @@ class BookSession:
         return e
 
     def _history(self):
-        m = self.m
-        t = m.get_time()
-        cols = [getattr(m, g)(range(t)) for g in SERIES_FOR_HISTORY]
-        out = []
-        for i in range(t):
-            row = tuple(repr(c[i]) for c in cols)
-            out.append(self._intern.setdefault(row, len(self._intern) + 1))
-        return out
+        return history_rows(self.m, self._intern)
 
     def match(self):
         self.ops.append(["match"])
